@@ -58,6 +58,8 @@ where
 {
     pq: &'a mut DoublePriorityQueue<I, P, H>,
     pos: usize,
+    // one past the last slot not yet yielded from the back
+    pos_back: usize,
 }
 
 #[cfg(not(feature = "std"))]
@@ -67,6 +69,8 @@ where
 {
     pq: &'a mut DoublePriorityQueue<I, P, H>,
     pos: usize,
+    // one past the last slot not yet yielded from the back
+    pos_back: usize,
 }
 
 impl<'a, I: 'a, P: 'a, H: 'a> IterMut<'a, I, P, H>
@@ -74,7 +78,12 @@ where
     P: Ord,
 {
     pub(crate) fn new(pq: &'a mut DoublePriorityQueue<I, P, H>) -> Self {
-        IterMut { pq, pos: 0 }
+        let pos_back = pq.len();
+        IterMut {
+            pq,
+            pos: 0,
+            pos_back,
+        }
     }
 }
 
@@ -86,6 +95,9 @@ where
     type Item = (&'a mut I, &'a mut P);
     fn next(&mut self) -> Option<Self::Item> {
         use indexmap::map::MutableKeys;
+        if self.pos >= self.pos_back {
+            return None;
+        }
         let r: Option<(&'a mut I, &'a mut P)> = self
             .pq
             .store
@@ -96,6 +108,11 @@ where
         self.pos += 1;
         r
     }
+
+    fn size_hint(&self) -> (usize, Option<usize>) {
+        let remaining = self.pos_back - self.pos;
+        (remaining, Some(remaining))
+    }
 }
 
 impl<'a, I: 'a, P: 'a, H: 'a> DoubleEndedIterator for IterMut<'a, I, P, H>
@@ -105,14 +122,17 @@ where
 {
     fn next_back(&mut self) -> Option<Self::Item> {
         use indexmap::map::MutableKeys;
+        if self.pos >= self.pos_back {
+            return None;
+        }
+        self.pos_back -= 1;
         let r: Option<(&'a mut I, &'a mut P)> = self
             .pq
             .store
             .map
-            .get_index_mut2(self.pos)
+            .get_index_mut2(self.pos_back)
             .map(|(i, p)| (i as *mut I, p as *mut P))
             .map(|(i, p)| unsafe { (i.as_mut().unwrap(), p.as_mut().unwrap()) });
-        self.pos -= 1;
         r
     }
 }
@@ -123,7 +143,7 @@ where
     H: BuildHasher,
 {
     fn len(&self) -> usize {
-        self.pq.len()
+        self.pos_back - self.pos
     }
 }
 
